@@ -42,12 +42,24 @@ def background(atoms: Iterable[str]) -> List[Aff]:
     return out
 
 
+def tighten(a: Aff) -> Aff:
+    """g*t + c >= 0 over the integers  <=>  t + floor(c/g) >= 0   (g = gcd of the coefficients)."""
+    from math import gcd
+    a = normalise(a)
+    g = 0
+    for c in a.terms.values():
+        g = gcd(g, abs(c))
+    if g > 1:
+        return Aff({k: c // g for k, c in a.terms.items()}, a.const // g)
+    return a
+
+
 def entails(facts: Iterable[Aff], req: Aff, *, depth: int = 3) -> bool:
     """req >= 0 follows from facts (each >= 0) if req - sum(chosen facts) is a non-negative constant."""
-    req = normalise(req)
+    req = tighten(req)
     if req.is_const():
         return req.const >= 0
-    facts = list(dict.fromkeys(normalise(f) for f in facts))
+    facts = list(dict.fromkeys(tighten(f) for f in facts))
     atoms = set(req.atoms())
     for f in facts:
         atoms |= f.atoms()
